@@ -166,17 +166,18 @@ def priorprofile(rng, maxc=6):
     rng.shuffle(order)
     low = order[0]
     rest = order[1:]
-    k2 = min(len(rest) - 1, rng.choice([1, 2, 2, 2, 3]))
+    k2 = min(len(rest) - 1, rng.choice([2, 2, 2, 3, 3]))
     s2 = rest[:k2]           # start one below, each receives one paper from the lowest candidate
     s1 = rest[k2:]           # start at the target
-    T = rng.randint(2, 4)
+    extra = rng.random() < 0.25 and len(s2) > 1
+    T = rng.randint(k2 + 3, k2 + 5)          # the lowest candidate (k2 [+1] papers) must be strictly below the T-1 group
     lines = []
     for c in s1:
         lines.append((T, [c]))
     for c in s2:
         lines.append((T - 1, [c]))
         lines.append((1, [low, c]))
-    if rng.random() < 0.25 and len(s2) > 1:      # an extra paper breaks the symmetry for one of them
+    if extra:      # an extra paper breaks the symmetry for one of them
         lines.append((1, [low, s2[0]]))
     rng.shuffle(lines)
     tie = list(base)
@@ -236,7 +237,32 @@ def exactprofile(rng, p=2, maxc=5):
     return dict(nc=nc, seats=seats, lines=lines, tie=tie, withdrawn=[], undeclared=[], eqlines=[])
 
 
-SHAPES = dict(prior=priorprofile, bullet=bulletprofile, exact=exactprofile, random=randprofile, tie=tieprofile, quota=quotaprofile, chain=chainprofile, coalition=coalitionprofile)
+def sliverprofile(rng):
+    "a candidate whose only support is a sub-tolerance sliver of a vote (guarded arithmetic: nonzero only in the guard digits)"
+    seats = rng.randint(2, 4)
+    nc = seats + rng.randint(2, 3)
+    base = list(range(1, nc + 1))
+    order = list(base)
+    rng.shuffle(order)
+    A, D = order[0], order[1]
+    others = order[2:]
+    Q = rng.choice([500, 1000, 2000])
+    n = (seats + 1) * Q
+    lines = [(Q, [A]), (1, [A, D] + others[:rng.randint(0, 2)])]
+    left = n - Q - 1
+    share = left // len(others)
+    for i, c in enumerate(others):
+        m = share if i < len(others) - 1 else left - share * (len(others) - 1)
+        rest = [x for x in others if x != c]
+        rng.shuffle(rest)
+        lines.append((m, [c] + rest[:rng.randint(0, len(rest))]))
+    rng.shuffle(lines)
+    tie = list(base)
+    rng.shuffle(tie)
+    return dict(nc=nc, seats=seats, lines=lines, tie=tie, withdrawn=[], undeclared=[], eqlines=[])
+
+
+SHAPES = dict(prior=priorprofile, bullet=bulletprofile, exact=exactprofile, sliver=sliverprofile, random=randprofile, tie=tieprofile, quota=quotaprofile, chain=chainprofile, coalition=coalitionprofile)
 
 # configurations whose numbers fit TLC's 32-bit integers for small electorates
 WIGM_ARITH = [
